@@ -178,6 +178,27 @@ def r1_r2_r4(repo, rep):
             and norm(st_.value.func).split('.')[-1][:1].isupper():
           vocab_.add(st_.targets[0].id)
       open_ = [a_ for ex, t, i in conds for a_ in au.aliens(rd.expand(i, ex)[0], vocab_)]
+      # a closed condition that consults one of the constraints a skip may rest on (share range, volume tolerance, budget
+      # range) can be that reason in a form the interval recogniser does not read: it is not *known* to be a foreign reason
+      # which literals can be the reason of the skip?  Not the recognised range tests passed in their accepting direction and
+      # not the `is None` tests of the parameters (they are the context of the skip).  If what remains consults one of the
+      # constraints a skip may rest on (share range, volume tolerance, budget range), it can be that reason in a form the
+      # interval recogniser does not read: the skip is not *known* to rest on a foreign reason
+      KEYS_ = ('treatment_share_range', 'volume_ratio_tolerance', 'budget_range')
+      consulted_ = []
+      for ex, t, i in split_literals(conds):
+        nd_ = i if hasattr(i, 'kind') else g.node_of(i)
+        if nd_ in tests and t == tests[nd_][0].accept_when:
+          continue
+        lx_ = norm(rd.expand(nd_, ex, depth=12)[0])
+        if re.fullmatch(r'[\w.]+ is (not )?None', lx_):
+          continue
+        consulted_ += [k_ for k_ in KEYS_ if k_ in lx_ and k_ not in consulted_]
+      if conds and not open_ and consulted_:
+        rep.undecided('R2/skip-audit', 'iteration end at line %d' % e.lineno,
+                      'the iteration ends without a push under `%s`, which consults %s in a form that is not recognised as the range test of that constraint' % (shown[:120], ', '.join(consulted_)),
+                      f.loc(e.ast) if e.ast is not None else f.loc())
+        continue
       if not conds or open_:
         rep.undecided('R2/skip-audit', 'iteration end at line %d' % e.lineno,
                       'the iteration ends without a push under `%s`%s: whether that is one of the allowed reasons is not decided' % (shown[:120], (' (unresolved: %s)' % ', '.join(sorted(set(open_))[:4])) if open_ else ''),
@@ -187,7 +208,7 @@ def r1_r2_r4(repo, rep):
               'skip under ' + ' and '.join(('' if t else 'not ') + norm(ex)[:60] for ex, t, _ in conds),
               'a design (or a whole treatment group) is skipped under the condition `%s`, which is none of the reasons the statement allows (share, volume ratio, budget, over-max superset): feasible high-scoring designs can be omitted'
               % shown, f.loc(e.ast) if e.ast is not None else f.loc())
-  rep.floor('skip edges audited', n_skips, 6)
+  rep.floor('skip edges audited', n_skips, 4)      # share, volume ratio, two budget screens: merged conditions lower the count of edges, not of reasons
   return view, (hS, hT, hC), T, C
 
 
